@@ -352,10 +352,6 @@ def observe_sel(world, sc):
     return res(True, sel=True, out=toks, ftype=ftype, printed=printed), problems
 
 
-def sel_normal(r):
-    return dict(r, printed=r["printed"] if r["ok"] else 0, sel=r["sel"] if r["ok"] or r["exc"] not in ("LenaTypeError", "LenaValueError") else False)
-
-
 def random_sel(rnd):
     while True:
         sc = {"st": rnd.choice(["str", "empty", "callable", "bad"] + ["str", "empty", "callable"] * 3),
@@ -603,15 +599,12 @@ def observe_cmd(world, sc, stems):
         seen.append(args)
         return [os.path.join(world.bin, "pdflatex"), "CUSTOM", args[0], args[1]] if len(args) >= 2 else ["false"]
 
-    def tok(s, position_dir=False):
+    def tok(s):
         if s in WORDS:
             return word(s)
-        t = parse_arg(s, root, stems)
-        if t["s"] == "path" and not t["ext"] and position_dir is None:
-            return t
         if not root and s in DIRWORDS:
             return {"s": "dir", "dirs": [s], "stem": "", "ext": ""}
-        return t
+        return parse_arg(s, root, stems)
 
     def res(ok, exc="", argv=(), ccargs=(), out=None, ftype="", printed=False):
         return {"ok": ok, "exc": exc, "argv": list(argv), "ccargs": list(ccargs), "out": out or word(""), "ftype": ftype,
@@ -663,17 +656,11 @@ def observe_cmd(world, sc, stems):
         a = seen[0]
         ccargs = [tok(x) if isinstance(x, str) else word("?%r" % (x,)) for x in a[:3]]
         ccargs.append(word("CONTEXT" if len(a) > 3 and a[3] is context else "?not the context"))
-    line = " ".join(argv[:1] if False else ([stub_path] if sc["cc"] else [os.path.basename(argv[0])]) + argv[1:])
-    printed = line in buf.getvalue()
-    if not sc["vb"] and buf.getvalue().strip():
-        printed = True
+    # verbose: the command line as launched is printed; not verbose: nothing is
+    line = " ".join(([stub_path] if sc["cc"] else [os.path.basename(argv[0])]) + argv[1:])
+    printed = (line in buf.getvalue()) if sc["vb"] else bool(buf.getvalue().strip())
     return res(True, argv=toks, ccargs=ccargs, out=tok(data) if isinstance(data, str) else word("?%r" % (data,)),
                ftype=after.get("output", {}).get("filetype", ""), printed=printed), raw
-
-
-def cmd_equal(obs, exp):
-    """equality up to the spelling of 'the current directory' ('' or '.')"""
-    return obs == exp
 
 
 def random_cmd(rnd):
@@ -820,6 +807,10 @@ def observe_ctxop(sc):
             return res(True, "equal-Context-same-representation" if good else "?%r" % (c2,))
         if op == "bad_formatter":
             C(formatter="")
+            return res(True, "?accepted")
+        if op == "bad_create_command":
+            import lena.output
+            lena.output.LaTeXToPDF(create_command=5)
             return res(True, "?accepted")
         if op == "custom_formatter":
             c3 = C({"a": 1}, formatter=lambda d: "F%d" % len(d))
